@@ -484,6 +484,17 @@ def rule_r6(prog, res) -> None:
     shared_rule(res, c17.rule_r8, "C17", "C17.R8", "C10.R6")
 
 
+def _single_defs(fn) -> dict:
+    """local name -> value, for names assigned exactly once in the function"""
+    out: dict = {}
+    cnt: dict = {}
+    for x in walk_no_nested(fn):
+        if isinstance(x, ast.Assign) and len(x.targets) == 1 and isinstance(x.targets[0], ast.Name):
+            cnt[x.targets[0].id] = cnt.get(x.targets[0].id, 0) + 1
+            out[x.targets[0].id] = x.value
+    return {k: v for k, v in out.items() if cnt[k] == 1}
+
+
 def rule_r7(prog, res) -> None:
     """the derived quantities of a binning are what their names say, for every number of bins: `left` / `right` are all
     edges but the last / the first, `dz` the differences of adjacent edges, `mids` the arithmetic mean of adjacent edges
@@ -494,11 +505,15 @@ def rule_r7(prog, res) -> None:
     W = (1.0, 2.0, 4.0, 8.0)
     want = {"left": W[:-1], "right": W[1:], "dz": tuple(b_ - a_ for a_, b_ in zip(W, W[1:])), "mids": tuple((a_ + b_) / 2 for a_, b_ in zip(W, W[1:]))}
 
+    local_defs: dict = {}
+
     def ev(e, depth=0):
-        if depth > 6:
+        if depth > 8:
             raise Unknown("depth")
         if isinstance(e, ast.Constant):
             return e.value
+        if isinstance(e, ast.Name) and e.id in local_defs:
+            return ev(local_defs[e.id], depth + 1)
         if isinstance(e, ast.Attribute) and isinstance(e.value, ast.Name) and e.value.id == "self":
             if e.attr == "edges":
                 return W
@@ -506,7 +521,14 @@ def rule_r7(prog, res) -> None:
             if m_ is not None and m_.is_property:
                 r_ = [x.value for x in walk_no_nested(m_.node) if isinstance(x, ast.Return) and x.value is not None]
                 if len(r_) == 1:
-                    return ev(r_[0], depth + 1)
+                    saved = dict(local_defs)
+                    local_defs.clear()
+                    local_defs.update(_single_defs(m_.node))
+                    try:
+                        return ev(r_[0], depth + 1)
+                    finally:
+                        local_defs.clear()
+                        local_defs.update(saved)
             raise Unknown(unparse(e))
         if isinstance(e, ast.Subscript) and isinstance(e.slice, ast.Slice) and e.slice.step is None:
             v = ev(e.value, depth + 1)
@@ -543,6 +565,8 @@ def rule_r7(prog, res) -> None:
         rets = [x.value for x in walk_no_nested(m.node) if isinstance(x, ast.Return) and x.value is not None]
         if len(rets) != 1:
             raise AnalysisError(f"C10.R7: Binning.{name} has {len(rets)} return statements")
+        local_defs.clear()
+        local_defs.update(_single_defs(m.node))
         try:
             got = ev(rets[0])
         except Unknown as err:
@@ -553,11 +577,16 @@ def rule_r7(prog, res) -> None:
         else:
             res.violation("C10.R7", m, rets[0], f"Binning.{name} gives {got} for the edges {W}, expected {expect}: every consumer of the bin {name} (counting angle per bin, n(z) normalisation, files) works with other redshifts than the bins have", key_extra=f"binning-{name}")
     # the validator of edges
-    pb = prog.func("parse_binning")
-    res.touch(pb)
+    pb0 = prog.func("parse_binning")
+    res.touch(pb0)
+    from ..inline import inlined as _inl7
+
+    pb = _inl7(prog, pb0, desugar=True)  # an extracted check helper is expanded in place
     prm = pb.param_names()[0]
     guards = [x for x in walk_no_nested(pb.node) if isinstance(x, ast.If) and any(isinstance(s_, ast.Raise) for s_ in x.body)]
-    names = {prm} | {x.targets[0].id for x in walk_no_nested(pb.node) if isinstance(x, ast.Assign) and len(x.targets) == 1 and isinstance(x.targets[0], ast.Name) and any(isinstance(y, ast.Name) and y.id == prm for y in ast.walk(x.value))}
+    names = {prm}
+    for _ in range(3):
+        names |= {x.targets[0].id for x in walk_no_nested(pb.node) if isinstance(x, ast.Assign) and len(x.targets) == 1 and isinstance(x.targets[0], ast.Name) and any(isinstance(y, ast.Name) and y.id in names for y in ast.walk(x.value))}
     for what, ndim, ln, must in (("a valid array of three edges", 1, 3, False), ("a two-dimensional array", 2, 3, True), ("a single edge", 1, 1, True), ("a scalar", 0, 0, True)):
         env = {}
         for nm in names:
@@ -573,9 +602,9 @@ def rule_r7(prog, res) -> None:
                 continue
         n += 1
         if fired == must:
-            res.ok("C10.R7", res.site(pb, what), "rejected" if must else "accepted by the shape checks")
+            res.ok("C10.R7", res.site(pb0, what), "rejected" if must else "accepted by the shape checks")
         else:
-            res.violation("C10.R7", pb, pb.node, f"parse_binning {'accepts' if must else 'rejects'} {what} (ndim={ndim}, len={ln}): " + ("a binning without a single complete bin / with matrix-valued edges gets through, the per-bin arrays downstream are empty or mis-shaped" if must else "valid edges are refused"), key_extra=f"parse-binning-{what[:20]}")
+            res.violation("C10.R7", pb0, pb0.node, f"parse_binning {'accepts' if must else 'rejects'} {what} (ndim={ndim}, len={ln}): " + ("a binning without a single complete bin / with matrix-valued edges gets through, the per-bin arrays downstream are empty or mis-shaped" if must else "valid edges are refused"), key_extra=f"parse-binning-{what[:20]}")
     if n < 8:
         raise AnalysisError(f"C10.R7: only {n} instances folded")
 
